@@ -394,18 +394,19 @@ theorem hop_getManifest {σ : Type} (cfg : Cfg) (ht : TableOK cfg.table) (fuel :
     rw [respOf_ok cfg _ _ _ hs, finish_single_ok, toResp_ok]
     by_cases ho : cfg.o.omitDigest = true
     · constructor
+      -- F32: `hD` (from `WF`: the digest named in the call is well formed) discharges the new branch; statement unchanged
       · simp [Call.dec, requestsMade, gate, descriptorFromResponse, mkResp, hget_cons_ne, ho,
-          parseContentLength_itoa h0 hmax, isDigest_ne_nil hD, hn]
+          parseContentLength_itoa h0 hmax, isDigest_ne_nil hD, hD, hn]
       · simp [Call.dec, clientDecode, clientRead, gate, descriptorFromResponse, mkResp, hget_cons_ne, ho,
-          parseContentLength_itoa h0 hmax, isDigest_ne_nil hD, hn, newBlobReader, isDigest_hashable hD,
+          parseContentLength_itoa h0 hmax, isDigest_ne_nil hD, hD, hn, newBlobReader, isDigest_hashable hD,
           liftCRes, expectOk, orOctetStream]
     · have ho' : cfg.o.omitDigest = false := by simpa using ho
       have hd := hdig ho'
       constructor
       · simp [Call.dec, requestsMade, gate, descriptorFromResponse, mkResp, hget_cons_ne, ho',
-          parseContentLength_itoa h0 hmax, hd, isDigest_ne_nil hd, isDigest_ne_nil hD, hn]
+          parseContentLength_itoa h0 hmax, hd, isDigest_ne_nil hd, isDigest_ne_nil hD, hD, hn]
       · simp [Call.dec, clientDecode, clientRead, gate, descriptorFromResponse, mkResp, hget_cons_ne, ho',
-          parseContentLength_itoa h0 hmax, hd, isDigest_ne_nil hd, isDigest_ne_nil hD, hn, newBlobReader,
+          parseContentLength_itoa h0 hmax, hd, isDigest_ne_nil hd, isDigest_ne_nil hD, hD, hn, newBlobReader,
           isDigest_hashable hD, liftCRes, expectOk, orOctetStream]
   | _ => exact absurd hb (by simp [Carriable])
 
@@ -459,7 +460,7 @@ theorem hop_resolveBlob {σ : Type} (cfg : Cfg) (ht : TableOK cfg.table) (fuel :
     obtain ⟨⟨h0, hmax⟩, hd⟩ := hb
     obtain ⟨resp, hs, hdec⟩ := C03R.blobHead_reports_requested cfg.H resolveLocal cfg.o
       (srvReqOf cfg { kind := .blobHead, repo := repo, digest := dg } (mkReq { kind := .blobHead, repo := repo, digest := dg }))
-      d dg rfl ⟨h0, hmax, hd⟩ (isDigest_ne_nil hD)
+      d dg rfl ⟨h0, hmax, hd⟩ hD                                          -- F32: well-formedness from `WF`
     rw [respOf_ok cfg _ _ _ hs, finish_single_ok, toResp_ok]
     refine ⟨by simp [Call.dec, requestsMade], ?_⟩
     simp only [Call.dec]
@@ -593,7 +594,7 @@ theorem hop_mountBlob {σ : Type} (cfg : Cfg) (ht : TableOK cfg.table) (fuel : N
   | desc d =>
     obtain ⟨resp, hs, hdec⟩ := C03R.mount_reports_requested cfg.H resolveLocal cfg.o
       (srvReqOf cfg { kind := .blobMount, repo := toRepo, digest := dg, fromRepo := fromRepo }
-        (mkReq { kind := .blobMount, repo := toRepo, digest := dg, fromRepo := fromRepo })) d dg rfl hb (isDigest_ne_nil hD)
+        (mkReq { kind := .blobMount, repo := toRepo, digest := dg, fromRepo := fromRepo })) d dg rfl hb hD  -- F32: from `WF`
     rw [respOf_ok cfg _ _ _ hs, finish_single_ok, toResp_ok]
     refine ⟨by simp [Call.dec, requestsMade], ?_⟩
     simp only [Call.dec]
